@@ -5,6 +5,7 @@ package main
 import (
 	"context"
 	"fmt"
+	"strings"
 	"time"
 
 	"github.com/NethermindEth/juno/consensus"
@@ -111,7 +112,7 @@ func runShipped(res *lib.Result, drv *lib.Driver) {
 			res.Hit("shipped/pseudo-sender:two-correct-validators-commit-different-values-with-no-faulty-validator(state machines)")
 		}
 		// (b) through the real driver: is a GOSSIPED precommit with that sender accepted?
-		committed, err := pseudoThroughDriver(&shape)
+		committed, err := pseudoThroughDriver(&shape, "precommit")
 		res.Case("shipped-pseudo-sender-driver", true)
 		if err != nil {
 			res.Fatalf("shipped: driver run for the pseudo-sender demonstration failed: %v", err)
@@ -127,18 +128,35 @@ func runShipped(res *lib.Result, drv *lib.Driver) {
 		} else {
 			res.Hit("shipped/pseudo-sender:gossiped-precommit-not-accepted-by-the-driver")
 		}
+		// (c) round 6: the same for the PREVOTE listener (the filter is written three times in driver.listen): one
+		// gossiped prevote carrying the pseudo-sender's address is a polka by itself
+		locked, err := pseudoThroughDriver(&shape, "prevote")
+		res.Case("shipped-pseudo-sender-driver-prevote", true)
+		if err != nil {
+			res.Fatalf("shipped: driver run for the pseudo-sender prevote demonstration failed: %v", err)
+		} else if locked {
+			res.Violate(lib.Violation{Sig: "sync-pseudo-sender-prevote-accepted-on-gossip-path",
+				What: fmt.Sprintf("the shipped Validators give consensus/sync.SyncProtocolPrecommitSender power %d of %d; driver.listen hands a PREVOTE with that sender "+
+					"arriving on the gossip prevote listener to the state machine: after a genuine proposal that single message is a polka — the real driver + state machine "+
+					"(validator 1 of 4) locked and broadcast the precommit BC:0:0:1:8 although no validator but itself prevoted (precommit without a prevote quorum of validators)", pPseudo, total),
+				Replay: map[string]any{"mode": "shipped-pseudo-sender", "validators": "shape of consensus/mock.go, n=4",
+					"inputs": []string{"ProcessStart(0)", "proposal h=0 r=0 sender=0 value=8 (proposal listener)",
+						"prevote h=0 r=0 sender=SyncProtocolPrecommitSender id=8 (prevote listener)"}}})
+		} else {
+			res.Hit("shipped/pseudo-sender:gossiped-prevote-not-accepted-by-the-driver")
+		}
 	}
 }
 
 // pseudoThroughDriver runs the real driver (validator 1 of 4, shipped-shape Validators, real
 // state machine) and feeds, through the gossip listeners, a proposal of the round's proposer and
 // then one precommit whose sender is the sync pseudo-sender. Reports whether a Commit came back.
-func pseudoThroughDriver(cfg *Cfg) (bool, error) {
+func pseudoThroughDriver(cfg *Cfg, via string) (bool, error) {
 	rec := &recSM{sm: newSM(cfg, NodeSpec{Node: 1, Height: 0, VBase: 800, VStep: 4}), hits: map[string]int{}}
 	props := make(chan *types.Proposal[Val, Hsh, Adr])
 	pvs := make(chan *types.Prevote[Hsh, Adr])
 	pcs := make(chan *types.Precommit[Hsh, Adr])
-	ctx, cancel := context.WithTimeout(context.Background(), 3*time.Second)
+	ctx, cancel := context.WithTimeout(context.Background(), 60*time.Second)
 	defer cancel()
 	d := driver.New[Val, Hsh, Adr](log.NewNopZapLogger(), &memWAL{}, rec, okCommits{ch: make(chan jsync.CommittedBlock)},
 		p2p.Broadcasters[Val, Hsh, Adr]{
@@ -175,7 +193,16 @@ func pseudoThroughDriver(cfg *Cfg) (bool, error) {
 		return false, fmt.Errorf("the driver did not take the proposal")
 	}
 	delivered := send(func() {
-		pcs <- &types.Precommit[Hsh, Adr]{MessageHeader: types.MessageHeader[Adr]{Height: 0, Round: 0, Sender: pseudoAdr}, ID: &id}
+		if via == "prevote" {
+			pvs <- &types.Prevote[Hsh, Adr]{MessageHeader: types.MessageHeader[Adr]{Height: 0, Round: 0, Sender: pseudoAdr}, ID: &id}
+		} else {
+			pcs <- &types.Precommit[Hsh, Adr]{MessageHeader: types.MessageHeader[Adr]{Height: 0, Round: 0, Sender: pseudoAdr}, ID: &id}
+		}
+	})
+	// the driver handles one event at a time: once it has taken a second (harmless, stale-height-free) message the
+	// first one has been processed completely — no sleep decides the verdict
+	send(func() {
+		pcs <- &types.Precommit[Hsh, Adr]{MessageHeader: types.MessageHeader[Adr]{Height: 0, Round: 7, Sender: addr(2)}, ID: nil}
 	})
 	// let the driver finish the call, then stop it
 	time.Sleep(100 * time.Millisecond)
@@ -185,16 +212,20 @@ func pseudoThroughDriver(cfg *Cfg) (bool, error) {
 		if err != nil {
 			return false, err
 		}
-	case <-time.After(5 * time.Second):
+	case <-time.After(60 * time.Second):
 		return false, fmt.Errorf("driver.Run did not return after its context was cancelled")
 	}
 	if !delivered {
-		return false, fmt.Errorf("the driver did not take the precommit")
+		return false, fmt.Errorf("the driver did not take the %s", via)
 	}
 	rec.mu.Lock()
 	defer rec.mu.Unlock()
 	for _, c := range rec.calls {
-		if c.Commit {
+		if via == "precommit" && c.Commit {
+			return true, nil
+		}
+		// one gossiped prevote of the pseudo-sender (power N) is a polka: the validator locks and precommits 8
+		if via == "prevote" && strings.Contains(c.Acts, "BC:0:0:1:8") {
 			return true, nil
 		}
 	}
